@@ -236,19 +236,9 @@ pub fn g2g<const M: u32, const N: u32>(dir: usize, x: u32, l: &mut Local) -> Res
         Err(e) => Err(Viol::panic(name, &[src as u64], format!("{:#x}", want), e)),
     }
 }
-pub const MS: [u32; 11] = [2, 3, 4, 5, 8, 12, 16, 17, 30, 31, 32];
-macro_rules! with_m {
-    ($m:expr, $M:ident, $body:expr) => {
-        match $m {
-            2 => { const $M: u32 = 2; $body } 3 => { const $M: u32 = 3; $body } 4 => { const $M: u32 = 4; $body }
-            5 => { const $M: u32 = 5; $body } 8 => { const $M: u32 = 8; $body } 12 => { const $M: u32 = 12; $body }
-            16 => { const $M: u32 = 16; $body } 17 => { const $M: u32 = 17; $body } 30 => { const $M: u32 = 30; $body }
-            31 => { const $M: u32 = 31; $body } _ => { const $M: u32 = 32; $body }
-        }
-    };
-}
+pub const MS: [u32; 31] = [2, 3, 4, 5, 6, 7, 8, 9, 10, 11, 12, 13, 14, 15, 16, 17, 18, 19, 20, 21, 22, 23, 24, 25, 26, 27, 28, 29, 30, 31, 32];
 pub fn g2g_dispatch(dir: usize, m: u32, n: u32, x: u32, l: &mut Local) -> Result<(), Viol> {
-    with_m!(m, MM, with_n!(n, NN, g2g::<MM, NN>(dir, x, l)))
+    with_n!(m, MM, with_n!(n, NN, g2g::<MM, NN>(dir, x, l)))
 }
 pub fn from_quire_dispatch(n: u32, steps: &[Step], l: &mut Local) -> Result<(), Viol> {
     with_n!(n, NN, from_quire::<NN>(steps, l))
@@ -313,7 +303,7 @@ fn inputs(kind: usize, n: u32, es: u32) -> BoxedStrategy<u64> {
 
 pub fn run(rep: &mut Report) {
     let tier = rep.cfg.tier;
-    rep.rule = "for every width N in 2..=32 and both exponent sizes: PxE -> f32/f64, -> P8E0/P16E1/P32E2, -> i32/u32/i64/u64; f32/f64, P8E0/P16E1/P32E2, i32/u32/i64/u64 -> PxE (explicit todo!() stubs PxE1::from_i64/from_u32 are not called); PxE2<M> -> PxE1<N>, PxE1<M> -> PxE2<N>, PxE2<M> -> PxE2<N> for M in {2,3,4,5,8,12,16,17,30,31,32} x all N; Q32E2 accumulator (C04 histories) -> PxE2<N>; inherent and From spellings. Expected: exact when the target can hold the value, else posit / nearest-even-integer rounding, NaR and zero preserved, low 32-N bits zero. Sources: all patterns for P8/P16 sources and N <= 12 generic sources, proptest otherwise (structured bits, threshold lattice of the target +-2). Non-trivial = value not representable in the target / non-integer or negative for integer targets; distinct (conversion, N, input)."
+    rep.rule = "for every width N in 2..=32 and both exponent sizes: PxE -> f32/f64, -> P8E0/P16E1/P32E2, -> i32/u32/i64/u64; f32/f64, P8E0/P16E1/P32E2, i32/u32/i64/u64 -> PxE (explicit todo!() stubs PxE1::from_i64/from_u32 are not called); PxE2<M> -> PxE1<N>, PxE1<M> -> PxE2<N>, PxE2<M> -> PxE2<N> for all 31 x 31 width pairs; Q32E2 accumulator (C04 histories) -> PxE2<N>; inherent and From spellings. Expected: exact when the target can hold the value, else posit / nearest-even-integer rounding, NaR and zero preserved, low 32-N bits zero. Sources: all patterns for P8/P16 sources and N <= 12 generic sources, proptest otherwise (structured bits, threshold lattice of the target +-2). Non-trivial = value not representable in the target / non-integer or negative for integer targets; distinct (conversion, N, input)."
         .into();
     rep.assumptions = std_assumptions();
     super::run_corpus(rep, replay);
